@@ -38,12 +38,25 @@ func (d c07dims) scenario() *DialScenario {
 	} else {
 		sc.BadCert = "wrongname"
 	}
+	loginSteps := -1 // -1: no LOGIN exchange is running
 	sc.dynamic = func(pos int, verb, line string) (SrvAction, bool) {
 		switch verb {
 		case "STARTTLS":
 			return stReplies[d.stReply], true
 		case "handshake":
 			return hsKinds[d.hs], true
+		case "AUTH":
+			// a server that plays LOGIN as it is specified: the password only travels if the client answers the prompts
+			loginSteps = -1
+			if strings.HasPrefix(strings.ToUpper(line), "AUTH LOGIN") {
+				loginSteps = 0
+				return SrvAction{Kind: "reply", Code: 334, Text: "VXNlcm5hbWU6"}, true
+			}
+		case "auth-step":
+			if loginSteps == 0 {
+				loginSteps++
+				return SrvAction{Kind: "reply", Code: 334, Text: "UGFzc3dvcmQ6"}, true
+			}
 		}
 		return SrvAction{}, false
 	}
@@ -98,6 +111,14 @@ func runDialCase(c *Ctx, sc *DialScenario, branch string, nontrivial bool) *Dial
 	if run.Err != nil && strings.HasPrefix(run.Err.Error(), "config:") {
 		c.Note("config: %v", run.Err)
 		return nil
+	}
+	if c.rep.Property == "C17" {
+		for _, p := range run.DialCtxProblems {
+			c.Violate("c17-dial-unbounded", p, sc)
+		}
+		if len(run.DialCtxProblems) == 0 && run.Second == nil {
+			c.rep.Branches["dial-contexts-bounded"]++
+		}
 	}
 	c.AddCase(Case{Line: sc.modelLine(run), Want: run.wantLine(), Nontrivial: nontrivial, Branch: branch, Desc: sc})
 	// leave nothing behind
@@ -288,10 +309,11 @@ func init() {
 						}
 						sc := d.scenario()
 						sc.Timeout = 300 * time.Millisecond
-						if at == "LOGIN-NOENC" || at == "CRAM-MD5" {
+						if at == "CRAM-MD5" {
+							// (LOGIN is played by the scenario's own server)
 							base := sc.dynamic
 							sc.dynamic = func(pos int, verb, line string) (SrvAction, bool) {
-								if verb == "AUTH" || (verb == "auth-step" && at == "LOGIN-NOENC" && !strings.HasPrefix(line, "UzNj")) {
+								if verb == "AUTH" {
 									return SrvAction{Kind: "reply", Code: 334, Text: base64.StdEncoding.EncodeToString([]byte("<challenge@verif>"))}, true
 								}
 								return base(pos, verb, line)
@@ -306,6 +328,9 @@ func init() {
 							sc2.Timeout = 300 * time.Millisecond
 							sc2.dynamic = sc.dynamic
 							sc2.Script = map[int]SrvAction{pos: {Kind: "stall"}}
+							// opportunistic TLS, every other position: the port of the policy is unreachable, the
+							// dialogue (and the stall) happens on the fallback port
+							sc2.FirstDialFails = policy == 1 && pos%2 == 1
 							start := time.Now()
 							run := runDialCase(c, sc2, "stall@"+clean.Verbs[pos], true)
 							if run == nil {
